@@ -169,8 +169,12 @@ def write_evidence(pid, tier, seed, checks, distinct, wall, violations, extra_no
         "wall_s": round(wall, 2),
         "violations": violations,
     }
-    os.makedirs(os.path.join(VERIF, "evidence"), exist_ok=True)
-    path = os.path.join(VERIF, "evidence", pid + ".json")
+    evdir = os.path.join(VERIF, "evidence")
+    if repo_dir() != "/repo":
+        # runs against another tree (sensitivity runs on mutants) never touch the committed evidence
+        evdir = os.path.join(BUILD, "evidence-other-tree")
+    os.makedirs(evdir, exist_ok=True)
+    path = os.path.join(evdir, pid + ".json")
     with open(path, "w") as f:
         json.dump(ev, f, indent=1, sort_keys=False)
     return ev
@@ -339,9 +343,11 @@ def main():
 
     if violations:
         os.makedirs(os.path.join(VERIF, "replay"), exist_ok=True)
+        replay_out = os.path.join(VERIF, "replay") if repo_dir() == "/repo" else os.path.join(BUILD, "replay-other-tree")
+        os.makedirs(replay_out, exist_ok=True)
         shown = set()
         for r, log in violations:
-            dst = os.path.join(VERIF, "replay", os.path.basename(r))
+            dst = os.path.join(replay_out, os.path.basename(r))
             shutil.copy(r, dst)
             try:
                 err = json.load(open(dst)).get("error", "")
